@@ -74,8 +74,25 @@ def make_leaf():
                 k = tok_index(n["args"][1])
                 if k is not None:
                     return ("sortwidth", k)
+            if c == P + "require_bv" and n["args"] and getattr(leaf, "ex", None) is not None:
+                # the checked width of an operand: `let width = self.require_bv(e, ..)?`
+                return ("widthof", leaf.ex.ev(n["args"][0], env))
         return None
     return leaf
+
+
+def declared_width(t):
+    """`add(x, one(width of x))`: the result of a same-width operator has the width of its operand, and the result is compared with the
+    sort in token 2 before it is returned (R08.5), so a constant built from the operand's checked width has the declared width"""
+    if not isinstance(t, tuple):
+        return t
+    t = tuple(declared_width(x) for x in t)
+    if t[0] in ("add", "sub") and len(t) == 3:
+        for i in (1, 2):
+            c_, o_ = t[i], t[3 - i]
+            if isinstance(c_, tuple) and c_[0] in ("one", "zero", "ones") and c_[1] == ("widthof", o_):
+                t = t[:i] + ((c_[0], ("sortwidth", 2)),) + t[i + 1:]
+    return t
 
 
 def transparent(n):
@@ -129,7 +146,9 @@ def run(ctx):
     for fname, oracle, nops in (("parse_unary_op", ORACLE_UN, 1), ("parse_bin_op", ORACLE_BIN, 2), ("parse_ternary_op", ORACLE_TER, 3)):
         f = ctx.fn("patronus", P + fname)
         defs = local_defs(f)
-        ex = semterm.Extractor(defs, make_leaf(), transparent, passthrough)
+        lf_ = make_leaf()
+        ex = semterm.Extractor(defs, lf_, transparent, passthrough)
+        lf_.ex = ex
         oa = op_arms(f)
         if oa is None:
             ctx.violation("R08.1", "%s:shape" % fname, f["span"], "UNRECOGNISED: no match on the operator name")
@@ -183,6 +202,7 @@ def run(ctx):
             wterm, wcount = want if fname == "parse_unary_op" else (want, 3 + nops)
             n_rows += 1
             lowered.add(op)
+            got = declared_width(got)
             ok = norm(got) == norm(wterm)
             ctx.inst("R08.1", "%s:%s" % (fname, op), ok, arm["sp"], "btor2 `%s` is lowered to %s, the standard defines it as %s" % (op, fmt(norm(got)), fmt(norm(wterm))),
                      sample={"op": op, "lowering": fmt(got)})
